@@ -105,6 +105,10 @@ type Case struct {
 	Fresh   bool        `json:"fresh,omitempty"` // fault kind "error": run the follow-up on a fresh handle instead of the handle that saw the error
 	Other   KeyRef      `json:"other"`           // the other key written in the follow-up
 	Follow  []string    `json:"follow"`
+	// Then: further faulted writes (sequence_test.go). After the restart that follows a fault the next write
+	// runs through a fresh handle on the surviving storage - inside whatever recovery the first fault made
+	// necessary - and is hit by its own fault; Fresh and Follow apply after the last one.
+	Then []Stage `json:"then,omitempty"`
 }
 
 var idPool = []string{"alice", "bobby", "carol_1"}
@@ -427,10 +431,15 @@ type pair struct {
 	export    []byte // import: the exported key ring
 	overwrite bool   // import: the key ring exists, the import overwrites it
 	lab       labeller
+	depth     int    // number of faults that hit the storage before this pair's W (sequence_test.go)
+	pre       string // what happened before W, for messages
+	again     bool   // depth > 0: W repeats the write of the previous stage, which left its key in the old state
+	fellBack  bool   // depth > 0: the write drawn for this stage is not applicable to the state, generate replaces it
+	fpNew     string // fingerprint of the storage after the fault-free W (relative to the prior state)
 }
 
 func (p *pair) close() {
-	if p.base != nil {
+	if p.base != nil && p.depth == 0 {
 		p.base.remove()
 	}
 }
@@ -697,66 +706,108 @@ func prepare(c Case) (*pair, hx.Vs) {
 	}
 	// import: a donor keystore holds the key ring that is exported and imported
 	if c.W.Op == WImport {
-		donorMem := backend.NewInMemory()
-		donor, err := kshist.NewV2On("v2/mem", func() (backendapi.Backend, error) { return donorMem, nil })
-		if err != nil {
+		if err := p.prepareImport(); err != nil {
 			return fail("donor", err)
 		}
-		n := c.W.Gens
-		if n < 1 {
-			n = 1
-		}
-		for i := 0; i < n; i++ {
-			if err := donor.Generate(p.target.Kind, p.target.ID); err != nil {
-				donor.Close()
-				return fail("donor generate", err)
-			}
-		}
-		ms := donor.KS().(v2api.MutableKeyStore)
-		p.export, err = ms.ExportKeyRings([]string{ringPath(p.target)}, fix.V2Suite(), keystore.ExportPrivateKeys)
-		donor.Close()
-		if err != nil {
-			return fail("donor export", err)
-		}
-		for _, f := range base.files() {
-			if f == ringPath(p.target)+".keyring" {
-				p.overwrite = true
-			}
+	}
+	p.measure(&vs)
+	return p, vs
+}
+
+// prepareImport fills a donor keystore with the key ring that is exported and imported.
+func (p *pair) prepareImport() error {
+	donorMem := backend.NewInMemory()
+	donor, err := kshist.NewV2On("v2/mem", func() (backendapi.Backend, error) { return donorMem, nil })
+	if err != nil {
+		return err
+	}
+	n := p.c.W.Gens
+	if n < 1 {
+		n = 1
+	}
+	for i := 0; i < n; i++ {
+		if err := donor.Generate(p.target.Kind, p.target.ID); err != nil {
+			donor.Close()
+			return err
 		}
 	}
-	// fault-free W on a copy: N, the call list, S1
+	ms := donor.KS().(v2api.MutableKeyStore)
+	p.export, err = ms.ExportKeyRings([]string{ringPath(p.target)}, fix.V2Suite(), keystore.ExportPrivateKeys)
+	donor.Close()
+	if err != nil {
+		return err
+	}
+	p.markOverwrite()
+	return nil
+}
+
+// markOverwrite tells whether the key ring that is imported exists in the prior state.
+func (p *pair) markOverwrite() {
+	p.overwrite = false
+	for _, f := range p.base.files() {
+		if f == ringPath(p.target)+".keyring" {
+			p.overwrite = true
+		}
+	}
+}
+
+// measure runs the fault-free W on a copy of the prior state: N, the call list, S1.
+func (p *pair) measure(out *hx.Vs) {
+	c, base := p.c, p.base
+	vs := *out
+	defer func() { *out = vs }()
+	fail := func(what string, err error) {
+		vs.Add("harness:"+what, "%s: %v", c.Fixture, err)
+	}
 	dry, err := base.clone()
 	if err != nil {
-		return fail("clone", err)
+		fail("clone", err)
+		return
 	}
 	defer dry.remove()
 	run := p.execW(dry, nil)
 	if run.fx != nil {
-		defer run.fx.Close()
+		defer func() {
+			if run.fx != nil {
+				run.fx.Close()
+			}
+		}()
 	}
 	if run.skip != "" {
 		p.skip = run.skip
-		return p, vs
+		return
 	}
 	switch {
 	case run.res.hang:
 		p.skip = "inconclusive: the fault-free write did not return"
-		return p, vs
+		run.fx = nil
+		return
 	case run.res.panicked != nil:
 		vs.Add("panic:fault-free-"+c.W.Op+"/"+base.format+"@"+run.res.site, "%s: panic in the fault-free %s: %v", c.Fixture, describeW(p), run.res.panicked)
-		return p, vs
+		return
 	case run.res.err != nil:
 		e := clean(dry, run.res.err)
-		if c.W.Op == WGen || c.W.Op == WRingGen || c.W.Op == WImport {
-			if base.format == "v1" && strings.Contains(e, "file exists") {
-				p.skip = "collision: two v1 history files with the same time stamp"
-				return p, vs
+		genLike := c.W.Op == WGen || c.W.Op == WRingGen || c.W.Op == WImport
+		if genLike && base.format == "v1" && strings.Contains(e, "file exists") {
+			p.skip = "collision: two v1 history files with the same time stamp"
+			return
+		}
+		if p.depth > 0 && (genLike || p.again) {
+			// "the keystore keeps accepting further writes": generate/import can always be applied, and a write
+			// that succeeded on the state before the fault must succeed on the same state after it
+			sig := "write-after-fault-fails:" + c.W.Op + "@" + base.format
+			if len(dry.leftoversNow()) > 0 && strings.Contains(e, "already exists") {
+				sig = "stale-temp-file:write-blocked@" + base.format
 			}
+			vs.Add(sig, "%s: %s fails without a fault of its own: %s (files that belong to no key: %v)", c.Fixture, describeW(p), e, dry.leftoversNow())
+			return
+		}
+		if genLike {
 			vs.Add("fault-free-write-failed:"+c.W.Op+"@"+base.format, "%s: %s fails without any fault: %s", c.Fixture, describeW(p), e)
-			return p, vs
+			return
 		}
 		p.skip = "W is not applicable: " + e
-		return p, vs
+		return
 	}
 	p.calls = run.in.calls
 	p.firstMut, p.lastMut = -1, -1
@@ -770,28 +821,33 @@ func prepare(c Case) (*pair, hx.Vs) {
 	}
 	if len(p.calls) == 0 {
 		p.skip = "W makes no storage call"
-		return p, vs
+		return
 	}
 	run.fx.Close()
 	run.fx = nil
+	p.fpNew = dry.fingerprint(base)
 	p.s1, err = observeFresh(dry, p.rel)
 	if err != nil {
-		return fail("observe", err)
+		fail("observe", err)
+		return
 	}
 	// the fault-free write itself must not lose anything (sanity of S1, and of the oracle's reference)
 	p.checkAgainst(dry, p.s1, run, "fault-free", "no fault", &vs, true)
-	return p, vs
 }
 
 func describeW(p *pair) string {
 	w := p.c.W
+	d := fmt.Sprintf("%s(%s)", w.Op, p.target)
 	switch w.Op {
 	case WDestroyRotated:
-		return fmt.Sprintf("%s(%s#%d)", w.Op, p.target, w.Index)
+		d = fmt.Sprintf("%s(%s#%d)", w.Op, p.target, w.Index)
 	case WImport:
-		return fmt.Sprintf("%s(%s, %d generations)", w.Op, p.target, w.Gens)
+		d = fmt.Sprintf("%s(%s, %d generations)", w.Op, p.target, w.Gens)
 	}
-	return fmt.Sprintf("%s(%s)", w.Op, p.target)
+	if p.pre != "" {
+		return p.pre + "; after the restart " + d
+	}
+	return d
 }
 
 // normalise maps the generated fault onto the N calls of W.
@@ -1327,14 +1383,49 @@ type Info struct {
 	Pos       string // first | middle | last
 	Call      string // name of the call hit
 	Hang      bool
-	Overwrite bool // import: the key ring existed
+	Overwrite bool        // import: the key ring existed
+	Leftovers int         // files that belong to no key on the surviving storage
+	Stages    []StageInfo // sequences: the faults that came before the last one
+	Stopped   string      // sequences: why the sequence was not continued
+	LastOp    string      // the write hit by the (last) fault, as resolved
+	FellBack  bool        // sequences: generate replaced a destroy that was not applicable
 }
 
-// runFault executes W on a copy of the prior state with the fault planted, restarts, and checks.
-func (p *pair) runFault(raw Fault) (hx.Vs, Info) {
-	var vs hx.Vs
+// struck is the state of a case after the fault has hit W and the keystore has been restarted.
+type struck struct {
+	vs       hx.Vs
+	info     Info
+	work     *store // the surviving storage
+	run      *wrun  // the faulted execution (its handle is still open after fault kind "error")
+	post     Snap   // the state a fresh handle reads from the surviving storage
+	fdesc    string
+	stop     bool // nothing more can be done with the case
+	complete bool
+}
+
+func (s *struck) closeHandle() {
+	if s.run != nil && s.run.fx != nil {
+		s.run.fx.Close()
+		s.run.fx = nil
+	}
+}
+
+func (s *struck) release() {
+	s.closeHandle()
+	if s.work != nil {
+		s.work.remove()
+		s.work = nil
+	}
+}
+
+// strike executes W on a copy of the prior state with the fault planted, restarts, and checks the
+// state on the surviving storage against S0 / S1.
+func (p *pair) strike(raw Fault) *struck {
+	s := &struck{stop: true}
+	vs := &s.vs
 	f := p.normalise(raw)
-	info := Info{Fault: f, N: len(p.calls), Half: p.halfDone(f), Pre: p.preexisting(), Call: p.calls[f.K].Name, Overwrite: p.overwrite}
+	s.info = Info{Fault: f, N: len(p.calls), Half: p.halfDone(f), Pre: p.preexisting(), Call: p.calls[f.K].Name, Overwrite: p.overwrite, LastOp: p.c.W.Op, FellBack: p.fellBack}
+	info := &s.info
 	switch {
 	case f.K == 0:
 		info.Pos = "first"
@@ -1347,47 +1438,40 @@ func (p *pair) runFault(raw Fault) (hx.Vs, Info) {
 	work, err := p.base.clone()
 	if err != nil {
 		vs.Add("harness:clone", "%v", err)
-		return vs, info
+		return s
 	}
-	defer work.remove()
+	s.work = work
 	fdesc := fmt.Sprintf("fault %s at call %d of %d (%s)", f.Kind, f.K, len(p.calls), p.trace(f))
 	if f.Kind == KindTorn {
 		fdesc = fmt.Sprintf("fault torn write (%d%% of the data) at call %d of %d (%s)", f.Torn, f.K, len(p.calls), p.trace(f))
 	}
 	plan := f
 	run := p.execW(work, &plan)
-	closeRun := func() {
-		if run.fx != nil {
-			run.fx.Close()
-			run.fx = nil
-		}
-	}
-	defer closeRun()
+	s.run = run
 	if run.skip != "" {
 		vs.Add("harness:replay-diverged", "%s: %s was applicable in the dry run but not on the copy: %s", p.c.Fixture, describeW(p), run.skip)
-		return vs, info
+		return s
 	}
 	res := run.res
 	switch {
 	case res.hang:
 		info.Hang = true
 		run.fx = nil // the operation still runs: leave its handle alone
-		return vs, info
+		return s
 	case res.panicked != nil:
 		vs.Add("panic:"+op+"/"+format+"@"+res.site, "%s, %s, %s: panic: %v", p.c.Fixture, describeW(p), fdesc, res.panicked)
-		return vs, info
+		return s
 	}
 	if !run.in.fired {
 		vs.Add("harness:fault-not-reached", "%s, %s: the operation made %d calls in the dry run but only %d now; %s not reached", p.c.Fixture, describeW(p), len(p.calls), len(run.in.calls), fdesc)
-		return vs, info
+		return s
 	}
 	if f.Kind != KindError && !res.crashed {
 		vs.Add("harness:no-crash", "%s, %s, %s: the crash signal did not reach the top of the case (err %v)", p.c.Fixture, describeW(p), fdesc, res.err)
-		return vs, info
+		return s
 	}
-	complete := false
 	if f.Kind == KindError {
-		complete = res.err == nil
+		s.complete = res.err == nil
 		if res.err != nil {
 			fdesc += fmt.Sprintf(", the operation returned %q", clean(work, res.err))
 		} else {
@@ -1395,7 +1479,7 @@ func (p *pair) runFault(raw Fault) (hx.Vs, Info) {
 		}
 		// on the SAME handle: its view equals the storage
 		if run.ring != nil {
-			p.checkRing(work, run, fdesc, &vs)
+			p.checkRing(work, run, fdesc, vs)
 		}
 		if run.fx.Cached() {
 			run.fx.Reset()
@@ -1404,28 +1488,47 @@ func (p *pair) runFault(raw Fault) (hx.Vs, Info) {
 		fv, err := observeFresh(work, p.rel)
 		if err != nil {
 			vs.Add("harness:observe", "%v", err)
-			return vs, info
+			return s
 		}
-		vs = append(vs, hv.Vs...)
+		*vs = append(*vs, hv.Vs...)
 		for _, k := range p.rel {
 			if !eqKS(hv.Keys[k], fv.Keys[k]) {
 				vs.Add("handle-view-differs:"+op+"@"+format, "%s, %s, %s: through the handle that saw the error %s reads %s, a fresh handle on the same storage reads %s", p.c.Fixture, describeW(p), fdesc, k, p.lab.ks(hv.Keys[k]), p.lab.ks(fv.Keys[k]))
 			}
 		}
 	}
-	// restart: the wrapper and the handle are discarded, a fresh handle is opened on the storage
-	var follow kshist.Fixture
-	if f.Kind == KindError && !p.c.Fresh {
-		follow = run.fx
-	} else {
-		closeRun()
+	s.fdesc = fdesc
+	// restart: the wrapper and the handle are discarded, a fresh handle is opened on the storage (after
+	// fault kind "error" the handle that saw the error may be kept for the follow-up of the last stage)
+	if !(f.Kind == KindError && !p.c.Fresh && len(p.c.Then) == 0) {
+		s.closeHandle()
 	}
 	post, err := observeFresh(work, p.rel)
 	if err != nil {
 		vs.Add("restart-fails:"+op+"@"+format, "%s, %s, %s: the keystore cannot be opened again: %s", p.c.Fixture, describeW(p), fdesc, clean(work, err))
-		return vs, info
+		return s
 	}
-	info.Outcome = p.checkAgainst(work, post, run, "fresh", fdesc, &vs, complete)
+	s.post = post
+	info.Outcome = p.checkAgainst(work, post, run, "fresh", fdesc, vs, s.complete)
+	info.Leftovers = len(work.leftovers())
+	s.stop = false
+	return s
+}
+
+// runFault executes W on a copy of the prior state with the fault planted, restarts, and checks;
+// then either the next faulted write of the sequence follows, or the follow-up.
+func (p *pair) runFault(raw Fault) (hx.Vs, Info) {
+	s := p.strike(raw)
+	defer s.release()
+	if s.stop {
+		return s.vs, s.info
+	}
+	if len(p.c.Then) > 0 {
+		return p.chain(s)
+	}
+	vs, info, work, run, fdesc := s.vs, s.info, s.work, s.run, s.fdesc
+	format, op := p.format(), p.c.W.Op
+	follow := run.fx // the handle that saw the error, if it has been kept
 	if follow == nil {
 		fresh, err := work.open(nil, true)
 		if err != nil {
@@ -1435,7 +1538,7 @@ func (p *pair) runFault(raw Fault) (hx.Vs, Info) {
 		defer fresh.Close()
 		follow = fresh
 	}
-	expect := p.followUp(work, follow, run, info.Outcome, post, fdesc, &vs)
+	expect := p.followUp(work, follow, run, info.Outcome, s.post, fdesc, &vs)
 	// at the end everything reads as the follow-up left it and is still listable
 	end, err := observeFresh(work, p.rel)
 	if err == nil {
@@ -1729,6 +1832,7 @@ func genCase(t *rapid.T, fixture string) Case {
 		c.Fresh = rapid.IntRange(0, 3).Draw(t, "fresh") == 0
 	}
 	c.Follow = genFollow(t)
+	c.Then = genThen(t, c)
 	return c
 }
 
@@ -1745,6 +1849,9 @@ func genFollow(t *rapid.T) []string {
 // Accounting
 
 func classes(c Case, info Info) []string {
+	if len(c.Then) > 0 {
+		return seqClasses(c, info)
+	}
 	format := strings.SplitN(c.Fixture, "/", 2)[0]
 	cl := []string{"fixture:" + c.Fixture, "op:" + c.W.Op + "@" + format}
 	if info.Skip != "" {
@@ -1968,7 +2075,7 @@ func hung() string {
 // ---------------------------------------------------------------------------------------------
 // Tests
 
-const ruleText = "prior history (kshist.GenOps, 1-8 operations, extended so that W is applicable and another key exists) x one write operation W (generate/rotate any of 6 key kinds; destroy current; destroy rotated by listed index; v2: import of an exported key ring with 1-3 generations, with the default delegate when the ring does not exist and an overwriting one when it does; v2: AddKey+SetCurrent on a key ring object kept by the caller) x fault (call index k of the N storage/back-end calls W makes, measured by a fault-free run on a copy of the prior state; kind: the call returns an error instead of executing / crash just before / crash just after / torn write of 0-99 % of the data then crash) x follow-up (W again if the key is in its old state, generate the same key, generate another key, ListKeys, ListRotatedKeys, read everything) on keystore v1 (directory; cache off / unbounded) and v2 (in-memory and directory back end). Oracle on a FRESH handle opened on the surviving storage: every other key reads as before (current and all-keys, by value); the key being written is its old self or completely new (generate: new current key that is first in the all-keys read, pair halves match, nothing that was readable is gone, at most the new key added; destroy/import: exactly the state before or exactly the state a fault-free run on a copy produced); what the public key offered now protects is revealed by a stored private key; both listings succeed, show no row that belongs to no key, unchanged rows for other keys and old-or-new rows for the key written; follow-up writes succeed and keep everything readable. Fault kind error additionally on the SAME handle: no error returned => the complete new state; the handle's view equals the storage (v2 key ring object: its key list equals the stored ring). Non-trivial = at the fault at least one storage-changing call of W has been executed (wholly or torn) and at least one has not, and at least one key existed before."
+const ruleText = "prior history (kshist.GenOps, 1-8 operations, extended so that W is applicable and another key exists) x one write operation W (generate/rotate any of 6 key kinds; destroy current; destroy rotated by listed index; v2: import of an exported key ring with 1-3 generations, with the default delegate when the ring does not exist and an overwriting one when it does; v2: AddKey+SetCurrent on a key ring object kept by the caller) x fault (call index k of the N storage/back-end calls W makes, measured by a fault-free run on a copy of the prior state; kind: the call returns an error instead of executing / crash just before / crash just after / torn write of 0-99 % of the data then crash) x follow-up (W again if the key is in its old state, generate the same key, generate another key, ListKeys, ListRotatedKeys, read everything) on keystore v1 (directory; cache off / unbounded) and v2 (in-memory and directory back end). Oracle on a FRESH handle opened on the surviving storage: every other key reads as before (current and all-keys, by value); the key being written is its old self or completely new (generate: new current key that is first in the all-keys read, pair halves match, nothing that was readable is gone, at most the new key added; destroy/import: exactly the state before or exactly the state a fault-free run on a copy produced); what the public key offered now protects is revealed by a stored private key; both listings succeed, show no row that belongs to no key, unchanged rows for other keys and old-or-new rows for the key written; follow-up writes succeed and keep everything readable. Fault kind error additionally on the SAME handle: no error returned => the complete new state; the handle's view equals the storage (v2 key ring object: its key list equals the stored ring). Fault sequences (TestFaults: 1 case in 3 has one or two more stages; TestSequences): after the restart a further write - 'again' (the interrupted write once more when its key is in the old state, else generate of that key), generate, destroy current, destroy rotated (replaced by generate when the state has nothing to destroy), on the same key or sometimes another one - runs through a fresh handle on the surviving storage and is hit by a fault of its own (k' of the N' calls it makes there, measured by a fault-free run on a copy, which must succeed; N' includes the calls of the recovery from the earlier fault); every stage is judged like the first, relative to the state the previous fault left; a sequence is not continued behind a stage with a violation; the follow-up runs after the last stage; violations behind more than one fault carry the prefix 'fault-sequence:'. Non-trivial = at the (last) fault at least one storage-changing call of the write has been executed (wholly or torn) and at least one has not, and at least one key existed before."
 
 var (
 	quickFaults    = map[string]int{"v1/cache=off": 9, "v1/cache=inf": 6, "v2/mem": 12, "v2/dir": 4}
@@ -2116,6 +2223,7 @@ func TestReplay(t *testing.T) {
 	for _, f := range Fixtures {
 		h["TestFaults/"+f] = replayCase
 		h["TestEnumerate/"+f] = replayCase
+		h["TestSequences/"+f] = replayCase
 	}
 	R.Replay(t, h)
 }
